@@ -1,0 +1,100 @@
+//! Verification hooks (feature `verif-hooks` only; never part of a normal build).
+//!
+//! A model-checking harness installs a table of callbacks with [`install`]. The
+//! library calls [`point`] before shared-memory operations and [`wait_until`]
+//! before an operation that may block (lock acquisition, channel send/recv), so
+//! that an external cooperative scheduler can own the interleaving. With no
+//! table installed every hook is one atomic load and a branch.
+#![allow(missing_docs, missing_debug_implementations, unreachable_pub)]
+
+use core::sync::atomic::{AtomicPtr, Ordering};
+
+/// Table of callbacks installed by the harness.
+pub struct Hooks {
+    /// A scheduling point before a non-blocking shared-memory operation.
+    pub point: fn(&'static str),
+    /// A scheduling point before an operation that blocks until `pred` holds.
+    pub wait_until: fn(&'static str, &dyn Fn() -> bool),
+    /// The calling thread is about to spawn a thread; returns a ticket.
+    pub pre_spawn: fn() -> usize,
+    /// First call on a spawned thread, with the ticket of `pre_spawn`.
+    pub thread_begin: fn(usize),
+    /// Last call on a spawned thread.
+    pub thread_end: fn(),
+    /// Clock seam: `Some((unix_seconds, nanos))` overrides the system clock.
+    pub now: fn() -> Option<(i64, u32)>,
+    /// Free-form observation (label, value); never influences behaviour.
+    pub note: fn(&'static str, u64),
+}
+
+static HOOKS: AtomicPtr<Hooks> = AtomicPtr::new(core::ptr::null_mut());
+
+/// Installs the hook table (or removes it with `None`).
+pub fn install(hooks: Option<&'static Hooks>) {
+    let ptr = match hooks {
+        Some(h) => h as *const Hooks as *mut Hooks,
+        None => core::ptr::null_mut(),
+    };
+    HOOKS.store(ptr, Ordering::SeqCst);
+}
+
+#[inline]
+fn get() -> Option<&'static Hooks> {
+    let ptr = HOOKS.load(Ordering::Acquire);
+    if ptr.is_null() {
+        None
+    } else {
+        Some(unsafe { &*ptr })
+    }
+}
+
+#[inline]
+pub fn point(label: &'static str) {
+    if let Some(h) = get() {
+        (h.point)(label)
+    }
+}
+
+#[inline]
+pub fn wait_until(label: &'static str, pred: &dyn Fn() -> bool) {
+    if let Some(h) = get() {
+        (h.wait_until)(label, pred)
+    }
+}
+
+#[inline]
+pub fn pre_spawn() -> usize {
+    match get() {
+        Some(h) => (h.pre_spawn)(),
+        None => 0,
+    }
+}
+
+#[inline]
+pub fn thread_begin(ticket: usize) {
+    if let Some(h) = get() {
+        (h.thread_begin)(ticket)
+    }
+}
+
+#[inline]
+pub fn thread_end() {
+    if let Some(h) = get() {
+        (h.thread_end)()
+    }
+}
+
+#[inline]
+pub fn now() -> Option<(i64, u32)> {
+    match get() {
+        Some(h) => (h.now)(),
+        None => None,
+    }
+}
+
+#[inline]
+pub fn note(label: &'static str, value: u64) {
+    if let Some(h) = get() {
+        (h.note)(label, value)
+    }
+}
